@@ -185,6 +185,12 @@ def streams(rnd, tier):
             p = (R.hdr(1, typ, 0, ln) + bytes(rnd.randrange(256) for _ in range(ln)))[:ln]
             pre, post = context(1, "reset")
             out.append(("oversized type %d len %d" % (typ, ln), pre + [("data", p + post)]))
+    # a header announcing more than the buffer holds, followed by more bytes than the buffer holds
+    for ln in (MAX + 1, 65535, 2 ** 32 - 1):
+        for ph in ("first", "reset"):
+            pre, post = context(1, ph)
+            flood = bytes(rnd.randrange(256) for _ in range(rnd.choice([4000, 9000])))
+            out.append(("oversized flood after len %d in %s" % (ln, ph), pre + [("data", R.hdr(1, 4, 0, ln) + flood)]))
     # prefixes with non-zero host bits (not rejected; outside the precondition of the trie theorems)
     for i in range(20 if tier == "quick" else 300):
         ver = 1
@@ -293,7 +299,7 @@ def run(chk):
     quick = chk.tier == "quick"
     modes = ["whole", "byte", "rand"] if quick else ["whole", "byte", "rand", "eight", "rand"]
     t0 = time.time()
-    nrun = nstream = found = 0
+    nrun = nstream = found = ncrash = 0
     kinds = collections.Counter()
     outcomes = collections.Counter()
     samples = []
@@ -320,7 +326,7 @@ def run(chk):
         if fnd and found < 5:
             report(fnd, lines, impl, {"corpus": name})
     sts = streams(rnd, chk.tier)
-    budget = 150 if quick else 3600
+    budget = 150 if quick else 1500
     for i, (desc, evs) in enumerate(sts):
         if time.time() - t0 > budget:
             chk.notes.append("time budget reached after %d of %d streams" % (i, len(sts)))
@@ -331,7 +337,8 @@ def run(chk):
         kinds[desc.split()[1] if desc.startswith("v") else desc.split()[0]] += 1
         if i % 400 == 0 and len(samples) < 5:
             samples.append({"stream": desc, "script": script_of(rechunk(evs, "whole", rnd))[:12]})
-        if fnd and found < 5:
+        if fnd and (found < 5 or (fnd["key"] == "crash" and ncrash < 3)):
+            ncrash += fnd["key"] == "crash"
             report(fnd, lines, impl, {"stream": desc})
     hb, hb_lines = hostbits_table_stress(rnd, 100 if quick else 3000)
     if hb:
